@@ -32,3 +32,50 @@ package lagrange
 //@     invariant forall t int :: 0 <= t && t < i ==> lden(xs, t, len(xs)) != rzero() && rmul(terms[t], lden(xs, t, len(xs))) == lnum(xs, at, t, len(xs))
 //@   loop range(xs)#2
 //@     invariant num == lnum(xs, at, i, j) && den == lden(xs, i, j)
+
+// ---------------------------------------------------------------- interpolation as the basis-weighted sum (C20)
+// lsum(b, y, k) = sum_{t<k} b[t]*y[t] and glsum(b, v, k) = sum_{t<k} [b[t]] v[t], accumulated in the order the code
+// accumulates them. InterpolateAt / InterpolateInExponentAt return exactly that sum over ALL nodes, with the
+// coefficients b the Lagrange basis of BasisAt for the SAME nodes and the SAME evaluation point (b[t] * lden == lnum),
+// and fail when the node and value lists differ in length or a node is repeated. Both have the same shape, so the
+// computation "in the exponent" is the image of the scalar one under lifting term by term.
+//@ ghost func lsum(b []V, y []V, k Int) V
+//@ ghost func glsum(b []V, v []V, k Int) V
+//@ theory lsum
+//@ axiom Lsum0: forall b []V, y []V :: lsum(b, y, 0) == rzero()
+//@ axiom LsumS: forall b []V, y []V, k Int :: k > 0 ==> lsum(b, y, k) == radd(lsum(b, y, k - 1), rmul(b[k - 1], y[k - 1]))
+//@ axiom Glsum0: forall b []V, v []V :: glsum(b, v, 0) == gzero()
+//@ axiom GlsumS: forall b []V, v []V, k Int :: k > 0 ==> glsum(b, v, k) == gadd(glsum(b, v, k - 1), gsmul(b[k - 1], v[k - 1]))
+//@ end
+
+//@ func InterpolateAt
+//@   property C20
+//@   bind FE ring, FiniteField ringS
+//@   uses lagrange, lsum
+//@   nopanic
+//@   ghostvar bs typeof(basis)
+//@   requires forall t int :: 0 <= t && t < len(nodes) ==> !utils.IsNil(nodes[t])
+//@   ensures len(nodes) != len(values) ==> err != nil
+//@   ensures (exists t int :: 0 <= t && t < len(nodes) && lden(nodes, t, len(nodes)) == rzero()) ==> err != nil
+//@   ensures err == nil && len(nodes) > 0 ==> len(bs.Coefficients()) == len(nodes) && result == lsum(bs.Coefficients(), values, len(values))
+//@   ensures err == nil && len(nodes) > 0 ==> forall t int :: 0 <= t && t < len(nodes) ==> lden(nodes, t, len(nodes)) != rzero() && rmul(bs.Coefficients()[t], lden(nodes, t, len(nodes))) == lnum(nodes, at, t, len(nodes))
+//@   ensures err == nil && len(nodes) == 0 ==> result == rzero()
+//@   ghostset after "basis, err := BasisAt(nodes, at)": bs = basis
+//@   loop range(values)
+//@     invariant basis == bs && out == lsum(basis.Coefficients(), values, i)
+
+//@ func InterpolateInExponentAt
+//@   property C20
+//@   bind S ring, FiniteField ringS, C group, FiniteModule groupS
+//@   uses lagrange, lsum
+//@   nopanic
+//@   ghostvar bs typeof(basisCoeffs)
+//@   requires forall t int :: 0 <= t && t < len(nodes) ==> !utils.IsNil(nodes[t])
+//@   ensures (len(nodes) != len(values) || module == nil) ==> err != nil
+//@   ensures (exists t int :: 0 <= t && t < len(nodes) && lden(nodes, t, len(nodes)) == rzero()) ==> err != nil
+//@   ensures err == nil && len(nodes) > 0 ==> len(bs.Coefficients()) == len(nodes) && result == glsum(bs.Coefficients(), values, len(values))
+//@   ensures err == nil && len(nodes) > 0 ==> forall t int :: 0 <= t && t < len(nodes) ==> lden(nodes, t, len(nodes)) != rzero() && rmul(bs.Coefficients()[t], lden(nodes, t, len(nodes))) == lnum(nodes, at, t, len(nodes))
+//@   ensures err == nil && len(nodes) == 0 ==> result == gzero()
+//@   ghostset after "basisCoeffs, err := BasisAt(nodes, at)": bs = basisCoeffs
+//@   loop range(values)
+//@     invariant basisCoeffs == bs && out == glsum(basisCoeffs.Coefficients(), values, i)
